@@ -4,21 +4,21 @@ Local Open Scope N_scope.
 Lemma linv_init : linv linit.
 Proof. left. split; reflexivity. Qed.
 
-Lemma lstep_inv s o : f7_op o = false -> linv s -> linv (fst (lstep s o)).
+Lemma lstep_inv safe s o : (safe = true \/ f7_op o = false) -> linv s -> linv (fst (lstep_gen safe s o)).
 Proof.
   intros Hf [[Hw Hh]|(w0 & Hw & Hh)]; destruct s as [h ws]; cbn [held writers] in *; subst.
   - (* no writer, lock free *)
-    destruct o as [w valid ok|w ok|w|w]; cbn [lstep held writers find fst].
+    destruct o as [w valid ok|w ok|w|w]; cbn [lstep_gen held writers find fst].
     + destruct valid, ok; cbn [negb fst]; try (left; split; reflexivity).
       right. exists w. split; reflexivity.
     + left. split; reflexivity.
     + left. split; reflexivity.
     + left. split; reflexivity.
   - (* one writer owning the guard *)
-    destruct o as [w valid ok|w ok|w|w]; cbn [lstep held writers fst].
+    destruct o as [w valid ok|w ok|w|w]; cbn [lstep_gen held writers fst].
     + right. exists w0. split; reflexivity.
     + cbn [find]. destruct (N.eqb w0 w); cbn [fst].
-      * destruct ok; [|discriminate Hf]. cbn [fst]. right. exists w0. split; reflexivity.
+      * destruct ok; [cbn [fst]; right; exists w0; split; reflexivity|]. destruct Hf as [->|Hf]; [|discriminate Hf]. cbn [fst]. right. exists w0. split; reflexivity.
       * right. exists w0. split; reflexivity.
     + cbn [find remove_w]. destruct (N.eqb w0 w); cbn [fst held writers].
       * left. split; reflexivity.
@@ -26,23 +26,31 @@ Proof.
     + right. exists w0. split; reflexivity.
 Qed.
 
-Lemma lrun_fst s ops : forall o, fst (lrun s (o :: ops)) = fst (lrun (fst (lstep s o)) ops).
+Lemma lrun_fst safe s ops : forall o, fst (lrun_gen safe s (o :: ops)) = fst (lrun_gen safe (fst (lstep_gen safe s o)) ops).
 Proof.
-  intros o. cbn [lrun]. destruct (lstep s o) as [s1 x]. cbn [fst]. destruct (lrun s1 ops) as [s2 xs]. reflexivity.
+  intros o. cbn [lrun_gen]. destruct (lstep_gen safe s o) as [s1 x]. cbn [fst]. destruct (lrun_gen safe s1 ops) as [s2 xs]. reflexivity.
 Qed.
 
 (* C18 mutual exclusion: for every lifecycle (any length, any mix of handles) outside F7 *)
-Theorem mutual_exclusion ops : f7_class ops = false -> forall s, linv s -> linv (fst (lrun s ops)).
+Theorem mutual_exclusion_gen safe ops : (safe = true \/ f7_class ops = false) -> forall s, linv s -> linv (fst (lrun_gen safe s ops)).
 Proof.
   induction ops as [|o ops IH]; intros Hf s Hs; [exact Hs|].
-  cbn [f7_class existsb] in Hf. apply orb_false_iff in Hf. destruct Hf as [Ho Hr].
-  rewrite lrun_fst. apply IH; [exact Hr|]. apply lstep_inv; assumption.
+  rewrite lrun_fst. apply IH.
+  - destruct Hf as [Hf|Hf]; [now left|right]. cbn [f7_class existsb] in Hf. apply orb_false_iff in Hf. apply Hf.
+  - apply lstep_inv; [|exact Hs]. destruct Hf as [Hf|Hf]; [now left|right]. cbn [f7_class existsb] in Hf. apply orb_false_iff in Hf. apply Hf.
 Qed.
+
+(* the order of the two statements in the current source *)
+Lemma rollback_safe_pinned : rollback_safe = true.
+Proof. reflexivity. Qed.
+
+Theorem mutual_exclusion ops : forall s, linv s -> linv (fst (lrun s ops)).
+Proof. intros s Hs. apply mutual_exclusion_gen; [left; exact rollback_safe_pinned|exact Hs]. Qed.
 
 (* a busy lock is harmless: a Create that reports LockBusy changes nothing *)
 Theorem busy_is_harmless s w valid ok : snd (lstep s (Create w valid ok)) = RLockBusy -> fst (lstep s (Create w valid ok)) = s.
 Proof.
-  cbn [lstep]. destruct (held s); [reflexivity|]. destruct valid, ok; cbn; discriminate.
+  unfold lstep. cbn [lstep_gen]. destruct (held s); [reflexivity|]. destruct valid, ok; cbn; discriminate.
 Qed.
 
 (* while a writer is alive every Create fails with LockBusy *)
@@ -51,7 +59,7 @@ Theorem second_writer_refused s w w' valid ok :
 Proof.
   intros [[Hw Hh]|(w0 & Hw & Hh)] Hf.
   - rewrite Hw in Hf. cbn in Hf. contradiction.
-  - cbn [lstep]. rewrite Hh. reflexivity.
+  - unfold lstep. cbn [lstep_gen]. rewrite Hh. reflexivity.
 Qed.
 
 (* released: after drop / wait_merging_threads / failed construction a new writer can be created *)
@@ -61,17 +69,17 @@ Theorem released_after_drop s w w' :
 Proof.
   intros [[Hw Hh]|(w0 & Hw & Hh)] Hf; destruct s as [h ws]; cbn [held writers] in *; subst.
   - cbn in Hf. contradiction.
-  - cbn [find] in Hf. cbn [lstep writers held find remove_w].
+  - cbn [find] in Hf. unfold lstep. cbn [lstep_gen writers held find remove_w].
     destruct (N.eqb w0 w) eqn:E; [|cbn in Hf; contradiction].
-    cbn [fst lstep held negb snd]. reflexivity.
+    cbn [fst lstep_gen held negb snd]. reflexivity.
 Qed.
 
 Theorem released_after_failed_create s w valid ok w' :
   linv s -> snd (lstep s (Create w valid ok)) <> ROk -> snd (lstep s (Create w valid ok)) <> RLockBusy ->
   snd (lstep (fst (lstep s (Create w valid ok))) (Create w' true true)) = ROk.
 Proof.
-  intros Hs H1 H2. cbn [lstep] in *. destruct (held s) eqn:Eh; [cbn in H2; contradiction|].
-  destruct valid, ok; cbn [negb fst snd] in *; try contradiction; cbn [lstep]; rewrite Eh; reflexivity.
+  intros Hs H1 H2. unfold lstep in *. cbn [lstep_gen] in *. destruct (held s) eqn:Eh; [cbn in H2; contradiction|].
+  destruct valid, ok; cbn [negb fst snd] in *; try contradiction; cbn [lstep_gen]; rewrite Eh; reflexivity.
 Qed.
 
 (* rollback keeps the lock: there is no window in which another Create can succeed *)
@@ -81,7 +89,7 @@ Theorem rollback_keeps_lock s w w' valid ok :
   s' = s /\ snd (lstep s' (Create w' valid ok)) = RLockBusy.
 Proof.
   intros Hs Hf s'. assert (E : s' = s).
-  { unfold s'. cbn [lstep]. destruct (find w (writers s)) as [[|]|]; reflexivity. }
+  { unfold s', lstep. cbn [lstep_gen]. destruct (find w (writers s)) as [[|]|]; reflexivity. }
   split; [exact E|]. rewrite E. eapply second_writer_refused; eassumption.
 Qed.
 
@@ -89,38 +97,41 @@ Qed.
 Definition f7_witness : list lop := [Create 1 true true; Rollback 1 false; Create 2 true true].
 Lemma f7_refuted :
   f7_class f7_witness = true /\
-  writers (fst (lrun linit f7_witness)) = [(2, true); (1, false)] /\
-  snd (lrun linit f7_witness) = [ROk; RIoErr; ROk].
+  writers (fst (lrun_gen false linit f7_witness)) = [(2, true); (1, false)] /\
+  snd (lrun_gen false linit f7_witness) = [ROk; RIoErr; ROk] /\
+  snd (lrun_gen true linit f7_witness) = [ROk; RIoErr; RLockBusy].
 Proof. vm_compute. repeat split; reflexivity. Qed.
 
 (* the mechanism (guards) refines the one-line specification outside F7 *)
 Definition abs (s : lstate) : option wid :=
   match writers s with (w, _) :: _ => Some w | [] => None end.
 
-Lemma lstep_refines s o : f7_op o = false -> linv s ->
-  snd (lstep s o) = snd (spec_step (abs s) o) /\ abs (fst (lstep s o)) = fst (spec_step (abs s) o).
+Lemma lstep_refines s o : linv s ->
+  snd (lstep_gen true s o) = snd (spec_step (abs s) o) /\ abs (fst (lstep_gen true s o)) = fst (spec_step (abs s) o).
 Proof.
-  intros Hf [[Hw Hh]|(w0 & Hw & Hh)]; destruct s as [h ws]; cbn [held writers] in *; subst; unfold abs; cbn [writers].
-  - destruct o as [w valid ok|w ok|w|w]; cbn [lstep spec_step held writers find].
+  intros [[Hw Hh]|(w0 & Hw & Hh)]; destruct s as [h ws]; cbn [held writers] in *; subst; unfold abs; cbn [writers].
+  - destruct o as [w valid ok|w ok|w|w]; cbn [lstep_gen spec_step held writers find].
     + destruct valid, ok; cbn; split; reflexivity.
     + split; reflexivity.
     + split; reflexivity.
     + split; reflexivity.
-  - destruct o as [w valid ok|w ok|w|w]; cbn [lstep spec_step held writers find remove_w].
+  - destruct o as [w valid ok|w ok|w|w]; cbn [lstep_gen spec_step held writers find remove_w].
     + split; reflexivity.
-    + destruct (N.eqb w0 w); [|split; reflexivity]. destruct ok; [split; reflexivity|discriminate Hf].
+    + destruct (N.eqb w0 w); [|split; reflexivity]. destruct ok; split; reflexivity.
     + destruct (N.eqb w0 w); cbn; split; reflexivity.
     + split; reflexivity.
 Qed.
 
-Theorem model_refines_spec ops : f7_class ops = false -> forall s, linv s ->
-  snd (lrun s ops) = spec_run (abs s) ops.
+Theorem model_refines_spec_gen ops : forall s, linv s ->
+  snd (lrun_gen true s ops) = spec_run (abs s) ops.
 Proof.
-  induction ops as [|o ops IH]; intros Hf s Hs; [reflexivity|].
-  cbn [f7_class existsb] in Hf. apply orb_false_iff in Hf. destruct Hf as [Ho Hr].
-  destruct (lstep_refines s o Ho Hs) as [E1 E2].
-  pose proof (lstep_inv s o Ho Hs) as Hi.
-  cbn [lrun spec_run]. destruct (lstep s o) as [s1 x]. cbn [fst snd] in *.
+  induction ops as [|o ops IH]; intros s Hs; [reflexivity|].
+  destruct (lstep_refines s o Hs) as [E1 E2].
+  pose proof (lstep_inv true s o (or_introl eq_refl) Hs) as Hi.
+  cbn [lrun_gen spec_run]. destruct (lstep_gen true s o) as [s1 x]. cbn [fst snd] in *.
   destruct (spec_step (abs s) o) as [a y]. cbn [fst snd] in *. subst.
-  specialize (IH Hr s1 Hi). destruct (lrun s1 ops) as [s2 xs]. cbn [snd] in *. now rewrite IH.
+  specialize (IH s1 Hi). destruct (lrun_gen true s1 ops) as [s2 xs]. cbn [snd] in *. now rewrite IH.
 Qed.
+
+Theorem model_refines_spec ops : forall s, linv s -> snd (lrun s ops) = spec_run (abs s) ops.
+Proof. unfold lrun. rewrite rollback_safe_pinned. apply model_refines_spec_gen. Qed.
